@@ -47,7 +47,7 @@ const c05GoatcoreModule = "github.com/goatcms/goatcore"
 // c05FakeClockBinary builds the harness once more with the runtime's fake clock, against the same
 // goatcore tree this binary was built from (read from the build information, so a scratch tree named
 // by VERIF_REPO is followed). Returns "" and the reason when the sources of the harness are not
-// known (a run by hand without VERIF_ROOT); a build that fails stops the run (exit 3, BROKEN).
+// known (a run by hand without VERIF_ROOT) or when the runtime does not build with the fake clock here.
 func c05FakeClockBinary(dir string) (string, string) {
 	root := os.Getenv("VERIF_ROOT")
 	if root == "" {
@@ -95,11 +95,13 @@ func c05FakeClockBinary(dir string) (string, string) {
 	cmd.Env = append(os.Environ(), "GOFLAGS=-mod=mod", "GOPROXY=off", "GOSUMDB=off", "GOTOOLCHAIN=local")
 	if msg, err := cmd.CombinedOutput(); err != nil {
 		tail := string(msg)
-		if len(tail) > 3000 {
-			tail = tail[len(tail)-3000:]
+		if len(tail) > 300 {
+			tail = tail[len(tail)-300:]
 		}
-		os.RemoveAll(dir)
-		must(fmt.Errorf("the harness does not build with the fake clock (tags %s,faketime) against %s: %v\n%s", tags, repo, err, tail))
+		// the tree under test compiles (this binary was built from it): what failed is the build of
+		// the runtime with the fake clock, which says something about the toolchain installed here and
+		// nothing about goatcore - the twins then run with the real clock and the evidence says so
+		return "", fmt.Sprintf("the harness does not build with the fake clock (tags %s,faketime) against %s: %v: %s", tags, repo, err, strings.TrimSpace(tail))
 	}
 	return bin, ""
 }
@@ -157,6 +159,22 @@ func (r *c05Run) ambientTwins() {
 	pidNS := true
 	for _, who := range names {
 		lines, own, err := c05RunTwin(bin, outFile, pidNS)
+		if err != nil && bin != os.Args[0] {
+			// a child under the fake clock that does not come back is a matter of the fake clock
+			// (timers only move while everything is blocked): both twins once more with the real one
+			r.o.Extra["ambient_twins_clock"] = fmt.Sprintf("real clock: %s under the fake clock did not finish (%v)", who, err)
+			bin, pinned, runs = os.Args[0], pinned[:1], map[string][]string{}
+			for _, w := range names {
+				if w == who {
+					break
+				}
+				if l2, own2, err2 := c05RunTwin(bin, outFile, pidNS); err2 == nil {
+					pidNS = pidNS && own2
+					runs[w] = l2
+				}
+			}
+			lines, own, err = c05RunTwin(bin, outFile, pidNS)
+		}
 		if err != nil {
 			r.o.Fail("no_panic", fmt.Sprintf("%s (the first writes of a process whose ambient state is pinned) died: %v", who, err), "child-died", map[string]interface{}{"op": "ambient-twins"})
 			continue
